@@ -33,13 +33,15 @@ func (ctl *HTTPGroupController) Register(
 	routeConfig vhost.RouteConfig,
 ) (err error) {
 	indexKey := group
+	// The controller lock is held until the proxy has joined, so that the group found here cannot be
+	// emptied and removed by the last leave in between (UnRegister holds the same lock).
 	ctl.mu.Lock()
+	defer ctl.mu.Unlock()
 	g, ok := ctl.groups[indexKey]
 	if !ok {
 		g = NewHTTPGroup(ctl)
 		ctl.groups[indexKey] = g
 	}
-	ctl.mu.Unlock()
 	verifhook.At("group.http.after_lookup", proxyName)
 
 	return g.Register(proxyName, group, groupKey, routeConfig)
